@@ -81,4 +81,17 @@ var props = map[string]propCfg{
 		},
 		QuickSecs: 100, ThorSecs: 1200,
 	},
+	"C08": {
+		Scenarios: []scenCfg{
+			{Name: "c08", Quick: 1200, Thorough: 100000, Batch: 50},
+			{Name: "loop", Quick: 1500, Thorough: 100000, Batch: 100, Params: map[string]int{"converge": 1}},
+		},
+		Rule: "c08: one evaluation = one simulated interactive session (real Run, coordinator, matcher, Terminal, LightRenderer; simulated tty/stdin/processes/clock) with a seeded history of typing, deletions, toggle-sort, exclude, reload/reload-sync at seeded instants relative to loading and searching; at each settle point the match list is compared with a fresh sequential filter of (loaded input - issued exclusions, current query); " +
+			"loop: Matcher.Loop alone with adversarial request sequences, last publish must answer the last request; distinct = distinct event-log hash; non-trivial = at least one preemption",
+		RealStub: map[string][]string{
+			"real": {"ParseOptions", "Run (coordinator)", "Reader + poller", "ChunkList", "ChunkCache", "Matcher.Loop/scan", "Merger", "Terminal (action interpreter, render loop)", "LightRenderer (input decoder + escape generator)"},
+			"stub": {"tty device + VT emulator", "stdin pipe", "child processes (reload commands) and their pipes", "signals", "clock", "goroutine scheduler"},
+		},
+		QuickSecs: 120, ThorSecs: 1800,
+	},
 }
